@@ -175,9 +175,20 @@ def parse_template(path):
             flush()
             out.append(('macro', d[1], d[2]))
             i += 1
+        elif d[0] == 'declorder':
+            flush()
+            out.append(('declorder', d[1], d[2], d[3]))
+            i += 1
         elif d[0] == 'unit':
             flush()
             out.append(('unit', d[1]))
+            i += 1
+        elif d[0] == 'include':
+            flush()
+            inc = os.path.join(os.path.dirname(os.path.dirname(os.path.abspath(path))), d[1])
+            if not os.path.exists(inc):
+                inc = os.path.join(os.path.dirname(os.path.abspath(path)), d[1])
+            out.extend(x for x in parse_template(inc) if x[0] != 'unit')
             i += 1
         elif d[0] == 'fn':
             flush()
@@ -286,6 +297,55 @@ def spec_with_canary(spec_lines):
     return list(spec_lines) + ['    ensures false,']
 
 
+def rewrite_guard(text, rw, item, asm):
+    """R-guard: `PAT if GUARD => { BODY }` directly followed by the final arm `_ => EXPR` becomes
+    `PAT => if GUARD { BODY } else { EXPR }` (EXPR copied from the function text itself, the `_`
+    arm stays). Needed because the installed Verus cannot prove `final(self)` postconditions when
+    a `&mut self` call sits inside a guarded arm. Semantics-preserving: when the guard is false
+    Rust falls through to the next arm, which is `_`."""
+    head = rw['old'].strip()
+    m = re.fullmatch(r'(.*\S)\s+if\s+(.*\S)\s*=>\s*\{', head, re.S)
+    if not m:
+        raise TemplateError("guard rewrite needs `PAT if GUARD => {`: %r" % head)
+    pat, guard = m.group(1), m.group(2)
+    cnt = text.count(head)
+    if cnt != 1:
+        raise LostAnchor("guarded arm in %s occurs %d times: %r" % (item, cnt, head[:70]))
+    p = text.index(head)
+    mask = code_mask(text)
+    ob = p + len(head) - 1
+    cb = match_close(mask, ob)
+    # what follows must be the wildcard arm
+    q = cb + 1
+    while q < len(mask) and mask[q] in ' \n\t,':
+        q += 1
+    mm = re.match(r'_\s*=>\s*', mask[q:])
+    if not mm:
+        raise LostAnchor("guarded arm in %s is not directly followed by the `_` arm" % item)
+    es = q + mm.end()
+    # the `_` arm expression runs to the brace closing the match
+    depth = 0
+    k = es
+    while k < len(mask):
+        ch = mask[k]
+        if ch in '({[':
+            depth += 1
+        elif ch in ')}]':
+            if depth == 0:
+                break
+            depth -= 1
+        k += 1
+    expr = text[es:k].rstrip()
+    if expr.endswith(','):
+        expr = expr[:-1].rstrip()
+    body = text[ob:cb + 1]
+    new = '%s => if %s %s else { %s }' % (pat, guard, body, expr)
+    asm.log['rewrites'].append({'item': item, 'kind': 'rule:R-guard', 'count': 1, 'old': head,
+                                'new': '%s => if %s { .. } else { <text of the `_` arm> }' % (pat, guard),
+                                'why': rw['why'] or 'Verus limitation with &mut calls in guarded arms; falls through to `_` exactly like the guard'})
+    return text[:p] + new + text[cb + 1:]
+
+
 def splice_fn(fd, files, asm, canary=False, record=True):
     src = files.get(fd.file)
     scopes = None
@@ -313,6 +373,10 @@ def splice_fn(fd, files, asm, canary=False, record=True):
     # exact-text rewrites
     rewritten_lines = 0
     for rw in fd.rewrites:
+        if rw['kind'] == 'guard':
+            text = rewrite_guard(text, rw, item, asm)
+            rewritten_lines += 1
+            continue
         cnt = text.count(rw['old'])
         if cnt != rw['count'] or cnt == 0:
             raise LostAnchor("rewrite anchor in %s occurs %d times, expected %d: %r"
@@ -449,24 +513,28 @@ def splice_fn(fd, files, asm, canary=False, record=True):
                         le = len(text)
                     ins(le, ('BLOCK', payload), inline=True)
             elif where in ('before', 'after'):
-                occ = [mm.start() for mm in re.finditer(re.escape(anchor), text)]
+                # anchors are whole source lines, compared modulo leading/trailing whitespace
+                alines = [x.strip() for x in anchor.split('\n') if x.strip() != '']
+                tlines = text.split('\n')
+                starts = []
+                off = 0
+                offs_l = []
+                for tl in tlines:
+                    offs_l.append(off)
+                    off += len(tl) + 1
+                for k in range(len(tlines) - len(alines) + 1):
+                    if all(tlines[k + q].strip() == alines[q] for q in range(len(alines))):
+                        starts.append(k)
                 want = 1 if arg is None else arg
-                if arg is None and len(occ) != 1:
-                    raise LostAnchor("ghost anchor in %s occurs %d times: %r" % (item, len(occ), anchor[:60]))
-                if len(occ) < want:
-                    raise LostAnchor("ghost anchor in %s occurs %d times, want #%d: %r" % (item, len(occ), want, anchor[:60]))
-                p = occ[want - 1]
+                if not alines or (arg is None and len(starts) != 1) or len(starts) < want:
+                    raise LostAnchor("ghost anchor in %s occurs %d times%s: %r" % (
+                        item, len(starts), '' if arg is None else ', want #%d' % want, anchor[:60]))
+                k = starts[want - 1]
                 if where == 'before':
-                    ls = text.rfind('\n', 0, p) + 1
-                    if text[ls:p].strip() != '':
-                        raise LostAnchor("ghost anchor in %s is not at a statement start" % item)
-                    ins(ls, ('LINES', payload), inline=True)
+                    ins(offs_l[k], ('LINES', payload), inline=True)
                 else:
-                    e = p + len(anchor)
-                    le = text.find('\n', e)
-                    if text[e:le].strip() != '':
-                        raise LostAnchor("ghost anchor in %s does not end its line" % item)
-                    ins(le, ('BLOCK', payload), inline=True)
+                    last = k + len(alines) - 1
+                    ins(offs_l[last] + len(tlines[last]), ('BLOCK', payload), inline=True)
             else:
                 raise TemplateError("unknown ghost anchor kind %s" % where)
     else:
@@ -620,6 +688,25 @@ def emit_macro(file, name, files, asm):
                       'rewritten_lines': 0})
 
 
+def emit_declorder(file, name, fnname, files, asm):
+    """spec fn giving every variant of a field-less enum its position in the *declaration found in
+    /repo* - the order Rust's derive(PartialOrd) compares by."""
+    src = files.get(file)
+    a, s, e = src.find_item('enum', name)
+    body = src.text[s:e]
+    body, _ = strip_attributes(body)
+    mask = code_mask(body)
+    br = mask.index('{')
+    inner = mask[br + 1:match_close(mask, br)]
+    variants = [v.strip() for v in inner.split(',') if v.strip()]
+    for v in variants:
+        if not re.fullmatch(r'[A-Za-z_][A-Za-z0-9_]*', v):
+            raise LostAnchor("enum %s is not field-less: %r" % (name, v))
+    arms = ', '.join('%s::%s => %d' % (name, v, k) for k, v in enumerate(variants))
+    asm.add('pub open spec fn %s(p: %s) -> int { match p { %s } }' % (fnname, name, arms),
+            {'item': fnname, 'origin': 'generated', 'tag': None, 'props': []})
+
+
 def assemble(template_path, files, canary=False):
     asm = Assembled()
     tpl_meta = {'item': None, 'origin': 'template', 'tag': None, 'props': []}
@@ -644,8 +731,23 @@ def assemble(template_path, files, canary=False):
             emit_type(d[1], d[2], d[3], d[4], files, asm)
         elif d[0] == 'macro':
             emit_macro(d[1], d[2], files, asm)
+        elif d[0] == 'declorder':
+            emit_declorder(d[1], d[2], d[3], files, asm)
         elif d[0] == 'fn':
-            splice_fn(d[1], files, asm, canary=False)
             if canary and d[1].mode == 'proved' and not d[1].nocanary:
+                # canary file: the original keeps its contract but its body is not re-verified;
+                # the renamed copy carries `ensures false`
+                import copy
+                stub = copy.copy(d[1])
+                stub.mode = 'assumed'
+                stub.loops = {}
+                stub.ghosts = []
+                splice_fn(stub, files, asm, canary=False, record=False)
                 splice_fn(d[1], files, asm, canary=True, record=False)
+                fake = copy.copy(d[1])
+                asm.items.append({'item': (d[1].name if not d[1].impl else '%s::%s' % (d[1].impl.split()[-1].split('<')[0], d[1].name)),
+                                  'mode': 'proved', 'nocanary': False, 'file': d[1].file, 'lines': [0, 0], 'props': d[1].props,
+                                  'code_lines': 0, 'rewritten_lines': 0})
+            else:
+                splice_fn(d[1], files, asm, canary=False)
     return asm
